@@ -3,6 +3,7 @@ import logging
 import tempfile
 import threading
 import time
+import weakref
 from collections.abc import Callable, Coroutine
 from functools import wraps
 from pathlib import Path
@@ -70,6 +71,8 @@ def time_execution(
 
 # Global semaphore registry for retry decorator
 GLOBAL_RETRY_SEMAPHORES: dict[str, asyncio.Semaphore] = {}
+# Event loop each registered semaphore was created in (an asyncio.Semaphore cannot be shared between event loops)
+GLOBAL_RETRY_SEMAPHORE_LOOPS: dict[str, 'weakref.ReferenceType[asyncio.AbstractEventLoop]'] = {}
 GLOBAL_RETRY_SEMAPHORE_LOCK = threading.Lock()
 
 # Multiprocess semaphore support
@@ -192,8 +195,13 @@ def _get_or_create_semaphore(
                     return GLOBAL_RETRY_SEMAPHORES[fallback_key]
     else:
         with GLOBAL_RETRY_SEMAPHORE_LOCK:
-            if sem_key not in GLOBAL_RETRY_SEMAPHORES:
+            current_loop = asyncio.get_running_loop()
+            created_in = GLOBAL_RETRY_SEMAPHORE_LOOPS.get(sem_key)
+            if sem_key not in GLOBAL_RETRY_SEMAPHORES or created_in is None or created_in() is not current_loop:
+                # first use, or the registered semaphore belongs to an earlier event loop: start afresh,
+                # a semaphore contended in one loop raises RuntimeError when contended in another
                 GLOBAL_RETRY_SEMAPHORES[sem_key] = asyncio.Semaphore(semaphore_limit)
+                GLOBAL_RETRY_SEMAPHORE_LOOPS[sem_key] = weakref.ref(current_loop)
             return GLOBAL_RETRY_SEMAPHORES[sem_key]
 
 
